@@ -85,7 +85,7 @@ def _check(text, out, shorten, require_protocol, permitted):
 
 
 def pre_link(idx: List[int], free: str, pos: int, opt: int) -> bool:
-    if not (len(idx) <= P.N and len(free) <= P.F and 0 <= pos <= len(idx) and 0 <= opt < 16):
+    if not (len(idx) <= P.N and len(free) <= P.F and 0 <= pos <= len(idx) and 0 <= opt < P.NO):
         return False
     for i in idx:
         if not 0 <= i < P.NF:
@@ -109,15 +109,24 @@ def _run(idx, free, pos, opt):
     return text, out, n
 
 
-@harness(pre=pre_link, quick=dict(N=3, NF=8, F=0, timeout=120), thorough=dict(N=4, NF=len(FRAG), F=0, timeout=1400),
+def pre_link0(idx: List[int], opt: int) -> bool:
+    if not (len(idx) <= P.N and 0 <= opt < P.NO):
+        return False
+    for i in idx:
+        if not 0 <= i < P.NF:
+            return False
+    return in_shard(idx[0] if len(idx) > 0 else 0)
+
+
+@harness(pre=pre_link0, quick=dict(N=3, NF=7, NO=8, timeout=120), thorough=dict(N=4, NF=len(FRAG), NO=16, timeout=1400),
          nshards=dict(quick=4, thorough=24), reach=["link_made", "www_link", "bad_protocol_not_linked"],
          units=["escape.linkify", "escape.linkify.make_link", "escape._URL_RE", "escape.xhtml_escape"],
          stubs=["text = concatenation of <= N fragments from %r (first NF in quick) chosen by symbolic index; "
                 "options: shorten, require_protocol bits and permitted_protocols from %r" % (FRAG, PROTOS)],
          outside=["extra_params", "texts outside the fragment language (see h_link_free)"])
-def h_link(idx: List[int], free: str, pos: int, opt: int):
+def h_link(idx: List[int], opt: int):
     """pooled fragments, all option combinations."""
-    text, out, n = _run(idx, free, pos, opt)
+    text, out, n = _run(idx, "", 0, opt)
     if n > 0 and "http://" in text:
         reached("link_made")
     if n > 0 and text[:4] == "www.":
@@ -126,8 +135,8 @@ def h_link(idx: List[int], free: str, pos: int, opt: int):
         reached("bad_protocol_not_linked")
 
 
-@harness(pre=pre_link, quick=dict(N=2, NF=4, F=1, timeout=150), thorough=dict(N=3, NF=8, F=2, timeout=1400),
-         nshards=dict(quick=4, thorough=16), reach=["free_in_link"],
+@harness(pre=pre_link, quick=dict(N=1, NF=3, F=1, NO=2, timeout=150), thorough=dict(N=2, NF=8, F=2, NO=16, timeout=1400),
+         nshards=dict(quick=3, thorough=16), reach=["free_in_link"],
          units=["escape.linkify", "escape.linkify.make_link", "escape._URL_RE", "escape.xhtml_escape"],
          stubs=["text = <= N pooled fragments (first NF of the pool) with <= F FREE symbolic code points "
                 "(any non-surrogate) inserted at a symbolic fragment boundary"],
@@ -152,7 +161,7 @@ def pre_short(idx: List[int], rp: bool) -> bool:
 
 
 @harness(pre=pre_short, quick=dict(N=4, NF=7, timeout=120), thorough=dict(N=5, NF=len(SHORT), timeout=1400),
-         nshards=dict(quick=4, thorough=12), reach=["shortened", "entity_near_clip"],
+         nshards=dict(quick=4, thorough=12), reach=["shortened"],
          units=["escape.linkify", "escape.linkify.make_link"],
          stubs=["shorten=True; text = 'http://' or 'www.' start is not forced: <= N fragments from %r" % (SHORT,)],
          outside=["extra_params"])
@@ -163,5 +172,49 @@ def h_shorten(idx: List[int], rp: bool):
     n = _check(text, out, True, rp, ["http", "https"])
     if "...</a>" in out:
         reached("shortened")
-        if "&amp;" in out.split("</a>")[0][-40:]:
-            reached("entity_near_clip")
+
+
+# ------------------------------------------------------------------------------- Engine B extra
+def x_url_re_charset(tier, seed):
+    """Direct z3 obligation from the LIVE escape._URL_RE: with the leading \\b dropped (a superset of
+    the real matches: the sound direction) no string in the language of group 1 (= the whole pattern)
+    contains '"', '<', '>', "'" or whitespace - so an href built from a match cannot leave its
+    attribute, for URLs of any length."""
+    import re
+    import time
+    from engines import rxsmt as rx
+    pat = escape._URL_RE.pattern
+    flags = escape._URL_RE.flags
+    assert pat.startswith("\\b(") and pat.endswith(")") and "\\b" not in pat[2:] and "\\B" not in pat
+    body = pat[2:]
+    t0 = time.time()
+    R = rx.to_z3(body, flags & ~re.UNICODE, "fullmatch")
+    samples = ["http://a.b", "www.x.y/z?q=1&amp;r=2", "http://a.b&quot;c", "javascript:/x", "www.", "http://",
+               "http://a.b\"", "http://a<b", "http://a b", "https:///x(y)z", "ftp://x.y.", "http://x'y"]
+    val = rx.validate(re.compile(body, flags), samples, mode="fullmatch")
+    bad = "\"<>' \t\n\r\x0b\x0c\x85\xa0 "
+    res = []
+    viol = []
+    for ch in bad:
+        v, w, dt = rx.excludes_chars(R, ch)
+        res.append(dict(char=repr(ch), verdict=v, witness=w, s=dt))
+        if v == "sat":
+            m = escape._URL_RE.search(w)
+            if m is not None and ch in m.group(1):
+                viol.append(dict(detail="group 1 of _URL_RE can contain %r" % ch, input=w))
+    n = len(res)
+    ok = sum(1 for r in res if r["verdict"] == "unsat")
+    mism = val.get("mismatches") if isinstance(val, dict) else None
+    status = "VIOLATION" if viol else "PROVED" if (ok == n and not mism) else "BOUNDED"
+    return dict(status=status, obligations=n, discharged=ok, queries=n, solver_s=round(time.time() - t0, 2),
+                samples=res[:4], violations=viol,
+                trusted_base=["z3 seq/re theory", "re._parser (CPython)", "engines/rxsmt.py translator "
+                              "(validated on every run: %r)" % (
+                                  {k: val[k] for k in list(val)[:4]} if isinstance(val, dict) else val,)],
+                assumptions=["_URL_RE with its leading \\b dropped: superset of the strings linkify can put in "
+                             "an href (sound over-approximation); code points <= U+2FFFF (z3 character sort)"])
+
+
+# NOT registered: the obligation set did not finish within 900 s wall on the (heavily loaded) machine and is
+# therefore unvalidated; register as EXTRAS = {"x_url_re_charset": dict(fn=x_url_re_charset, wall=1800)} once measured.
+EXTRAS = {}
